@@ -55,22 +55,32 @@ func c15Configs(role string, ca bool) (cc, sc *gmtls.Config, eutIsClient bool, e
 	if err != nil {
 		return nil, nil, false, err
 	}
-	gm := role == "client_gm" || role == "server_gm" || role == "server_auto_gm"
-	eutIsClient = role == "client_gm" || role == "client_tls"
+	gm := role == "client_gm" || role == "server_gm" || role == "server_auto_gm" || role == "client_gm_gcm" || role == "server_gm_gcm"
+	eutIsClient = strings.HasPrefix(role, "client_")
 	if gm {
 		cc = &gmtls.Config{GMSupport: &gmtls.GMSupport{}, RootCAs: f.sm2CA, ServerName: "localhost"}
+		if strings.HasSuffix(role, "_gcm") {
+			cc.CipherSuites = []uint16{gmtls.GMTLS_ECC_SM4_GCM_SM3}
+		}
 		if ca {
 			cc.Certificates = []gmtls.Certificate{f.auth}
 		}
 	} else {
 		cc = &gmtls.Config{RootCAs: f.rsaCA, ServerName: "localhost", MaxVersion: gmtls.VersionTLS12,
 			CipherSuites: []uint16{gmtls.TLS_RSA_WITH_AES_128_GCM_SHA256}}
+		switch {
+		case strings.HasSuffix(role, "_ecdhe"):
+			cc.CipherSuites = []uint16{gmtls.TLS_ECDHE_RSA_WITH_AES_128_GCM_SHA256}
+		case strings.HasSuffix(role, "_tls10"):
+			cc.MaxVersion = gmtls.VersionTLS10
+			cc.CipherSuites = []uint16{gmtls.TLS_RSA_WITH_AES_128_CBC_SHA}
+		}
 		if ca {
 			cc.Certificates = []gmtls.Certificate{f.rsaAuth}
 		}
 	}
 	switch role {
-	case "client_gm", "server_gm":
+	case "client_gm", "server_gm", "client_gm_gcm", "server_gm_gcm":
 		sc = &gmtls.Config{GMSupport: &gmtls.GMSupport{}, Certificates: []gmtls.Certificate{f.sig, f.enc}}
 	case "server_auto_gm", "server_auto_tls":
 		sig, enc, rsaC := f.sig, f.enc, f.rsa
